@@ -2,6 +2,7 @@ CONSTANTS
   Publishers = {"A", "B"}
   Readers = {"r"}
   RemoteReaders = {}
+  LockFreeReaders = {}
   Keys <- KeysSeq
   HasCache = TRUE
   MaxFaults = 0
